@@ -1,7 +1,7 @@
 """C10 — the staged move picker yields every legal move exactly once: necessary structural clauses
 C10-SRC, C10-DEDUP, C10-STAGE, C10-LOUD (DESIGN.md §3)."""
 from facts import (norm, show, walk, strip_refs, deep_strip, is_call_to, callee_name, find_calls, guard_conditions,
-                   cmp_op, option_guard, switch_edge_conds)
+                   cmp_op, option_guard, switch_edge_conds, decision_paths)
 
 EXPLANATION = (
     "Decides necessary structural clauses of C10, not the index arithmetic of the segments: (SRC) the picker's move "
@@ -193,6 +193,14 @@ def all_yields(fx, body, depth=2):
             if isinstance(c, tuple) and c[0] == "call" and isinstance(c[1], str) and "MovePicker::" in c[1] and not c[1].endswith("next_best_move") and \
                     c[2] and deep_strip(c[2][0]) == ("arg", 1, "self"):
                 helper = fx.body(c[1])
+            # `remembered.and_then(|m| self.helper(m))`: the helper called by the closure is where the move is yielded
+            if helper is None and isinstance(c, tuple) and c[0] == "call" and isinstance(c[1], str) and c[1].endswith("Option::and_then") and len(c[2]) == 2:
+                cl = deep_strip(c[2][1])
+                cb = fx.body(str(cl[1])[len("closure:"):]) if isinstance(cl, tuple) and cl and cl[0] == "agg" and str(cl[1]).startswith("closure:") else None
+                rets = [deep_strip(r) for (_c, r, _l) in decision_paths(cb, 8) if r is not None] if cb is not None else []
+                if len(rets) == 1 and isinstance(rets[0], tuple) and rets[0][0] == "call" and isinstance(rets[0][1], str) and "MovePicker::" in rets[0][1] and \
+                        not rets[0][1].endswith("next_best_move"):
+                    helper = fx.body(rets[0][1])
         if helper is not None and helper is not body:
             for (hb, hbb, he, hline, hl) in all_yields(fx, helper, depth - 1):
                 out.append((hb, hbb, he, hline, f"{norm(helper.name).split('::')[-1]}/{hl}"))
